@@ -36,16 +36,16 @@ def instances(tier, seed):
     for n, spec, e in pick:
         out.append(dict(name="weld:" + n, harness="C06_weldoffset.cpp", args=[spec, "1" if e else "0"]))
     # (c) direction: reversed mobilizer with swapped roles
+    # (Screw and CantileverFreeBeam are left out: their coordinate also occurs outside sin/cos, which adds a variable to every
+    # polynomial of the two-model dynamics and exceeds the encoder's size limit; their reversal is covered kinematically by C05)
     ys = ["Pin", "Slider", "Universal", "Cylinder", "BendStretch", "Planar", "Gimbal", "Bushing", "Ball", "Free", "LineOrientation", "FreeLine",
-          "Translation", "Screw", "SphericalCoords", "Ellipsoid", "CantileverFreeBeam"]
+          "Translation", "SphericalCoords", "Ellipsoid"]
     if tier == "quick":
-        ys = ["Pin", "Slider", "Universal", "Cylinder", "Gimbal", "Ball", "Screw", "Planar", "BendStretch", "Translation"]
+        ys = ["Pin", "Slider", "Universal", "Cylinder", "Gimbal", "Ball", "Planar", "BendStretch", "Translation", "LineOrientation"]
     for y in ys:
         eul = [False, True] if (y in cat.QUAT and tier == "thorough") else [False]
         for e in eul:
             d = dict(name="rev:%s%s" % (y, ":euler" if e else ""), harness="C06_reverse.cpp", args=[y, "1" if e else "0", "2"])
-            if y in ("Screw", "CantileverFreeBeam"):
-                d["max_terms"] = 400000       # the coordinate also occurs outside sin/cos: one more variable in every polynomial
             out.append(d)
     return out
 
